@@ -201,6 +201,22 @@ func genSeqOps(g *Rand, fl seqFlavour, nslots, n int, thorough bool) []SOp {
 				op.How = 1 // with an Authorizer an unexpected message type is first of all refused
 			}
 		case "sub":
+			if fl == seqC18 && g.Chance(1, 4) {
+				// further subscribers of the meta topics, under several policies
+				switch g.Intn(3) {
+				case 0:
+					op.URI = g.Pick("wamp.subscription.on_subscribe", "wamp.subscription.on_create", "wamp.session.on_join", "wamp.session.on_leave", "wamp.registration.on_register", "wamp.subscription.on_unsubscribe")
+					op.Opts = wamp.Dict{}
+				case 1:
+					op.URI = g.Pick("wamp.subscription.", "wamp.", "wamp.session.", "wamp.registration.")
+					op.Opts = wamp.Dict{"match": "prefix"}
+				default:
+					op.URI = g.Pick("wamp..on_subscribe", "wamp.session.", "wamp..on_create")
+					op.Opts = wamp.Dict{"match": "wildcard"}
+				}
+				ops = append(ops, op)
+				continue
+			}
 			switch g.Weighted(6, 4, 3, 1) {
 			case 0:
 				op.URI = c01Topics[g.Intn(len(c01Topics))]
